@@ -17,6 +17,24 @@ class Boom(Exception):
 
 
 KINDS = {"Boom": Boom, "KeyboardInterrupt": KeyboardInterrupt}
+# exception classes a user's function really raises, among them every class the library itself catches somewhere (its own retry of a step after a failure
+# of its linear algebra must not swallow a failure of the user's function), and the library's own failure classes raised by the user
+EXTRA_KINDS = ["ValueError", "LinAlgError", "FloatingPointError", "ZeroDivisionError", "OverflowError", "RuntimeError", "RecursionError", "TypeError", "IndexError",
+               "AssertionError", "StopIteration", "MemoryError", "OSError", "FailedToMeetTolerances"]
+for _k in EXTRA_KINDS:
+    if _k == "LinAlgError":
+        KINDS[_k] = np.linalg.LinAlgError
+    elif _k == "FailedToMeetTolerances":
+        pass                    # resolved lazily (needs the library)
+    else:
+        KINDS[_k] = getattr(__import__("builtins"), _k)
+
+
+def kind_class(kind):
+    if kind == "FailedToMeetTolerances":
+        de, I = lc._imports()
+        return de.exception_types.FailedToMeetTolerances
+    return KINDS[kind]
 
 
 class Sites(object):
@@ -135,16 +153,22 @@ def fault_case(case):
     for plan in plans:
         site, k, kind = plan[0], plan[1], plan[2]
         a, S, kw, y0, dtype = build(cfg)
-        S.arm({site: {k}}, KINDS[kind])
+        S.arm({site: {k}}, kind_class(kind))
         exc = None
         try:
             a.integrate(**kw)
         except BaseException as e:      # noqa: the injected KeyboardInterrupt must be observed here
             exc = e
+        reached = S.cnt[site] >= k
         S.disarm()
         r.n += 1
         cs = dict(cfg=cfg, site=site, k=k, kind=kind)
         key = lambda clause: "C12/%s/%s/%s" % (clause, name, site)
+        if exc is None and reached:
+            r.v(key("swallowed"), "if a user function raises at any point of an integration the call raises the integration-failure error carrying the cause", dict(cs, method=name),
+                observed=dict(status=a.integration_status[:80], success=bool(a.success), rows=len(a)), expected="FailedIntegration caused by %s" % kind)
+            r.out(("swallowed", name, site, kind))
+            continue
         if exc is None:
             # the k-th call was never reached (can happen only if the run is not deterministic) -> harness problem, report loudly
             r.v(key("site-not-reached"), "fault-free call count is reproducible", cs, observed=dict(counts=dict(S.cnt)), expected=totals)
@@ -155,7 +179,7 @@ def fault_case(case):
                 r.v(key("exception"), "a keyboard interrupt propagates as itself", cs, observed=repr(exc)[:200], expected="KeyboardInterrupt")
                 continue
         else:
-            if not isinstance(exc, de.exception_types.FailedIntegration) or not isinstance(exc.__cause__, Boom):
+            if not isinstance(exc, de.exception_types.FailedIntegration) or type(exc.__cause__) is not kind_class(kind):
                 r.v(key("exception"), "the failure is raised as FailedIntegration carrying the original cause", cs,
                     observed=dict(exc=repr(exc)[:200], cause=repr(getattr(exc, "__cause__", None))[:100]), expected="FailedIntegration caused by the injected error")
                 continue
@@ -180,7 +204,7 @@ def fault_case(case):
         # ---- resume (optionally with a second fault first)
         second = plan[3:] if len(plan) > 3 else None
         if second:
-            S.arm({second[0]: {second[1]}}, KINDS[kind])
+            S.arm({second[0]: {second[1]}}, kind_class(kind))
             try:
                 a.integrate(**kw)
                 r.add("second_fault_not_reached")
@@ -234,7 +258,7 @@ def fault_case(case):
         #      before the first accepted step (the prefix is just the initial point), on a sub-lattice of positions otherwise
         if n == 1 or k % 4 == 1:
             a2, S2, kw2, _, _ = build(cfg)
-            S2.arm({site: {k}}, KINDS[kind])
+            S2.arm({site: {k}}, kind_class(kind))
             try:
                 a2.integrate(**kw2)
             except BaseException:       # noqa
@@ -373,8 +397,8 @@ def configs(ctx):
 
 def run(ctx):
     ctx.rule = ("E2 crash-point enumeration: for each configuration (8 method set-ups x 2 directions x dense on/off x with/without events+callbacks) a fault-free run numbers "
-                "every call of the user's rhs, Jacobian, event functions and callbacks; then one execution per site and per exception kind (Exception subclass, KeyboardInterrupt) "
-                "with exactly that call raising%s; after the fault: exception type and cause, status, bit-exact prefix, dense output, then resume and reset; plus 'tolerances cannot be met' cells (finite-time blow-up: FailedToMeetTolerances, prefix, second call, reset); "
+                "every call of the user's rhs, Jacobian, event functions and callbacks; then one execution per site and per exception kind (Exception subclass, KeyboardInterrupt; on the set-ups with dense output also 14 exception classes "
+                "users really raise - ValueError, LinAlgError, the arithmetic errors, RuntimeError, ... and the library's own FailedToMeetTolerances) with exactly that call raising%s; after the fault: exception type and cause, status, bit-exact prefix, dense output, then resume and reset; plus 'tolerances cannot be met' cells (finite-time blow-up: FailedToMeetTolerances, prefix, second call, reset); "
                 "distinct = distinct (method, site kind, exception kind, dense, events, step index of the fault) classes" % ("" if ctx.quick else "; plus all pairs (k1 in the run, k2 in the resumed run) on a sub-lattice of sites"))
     ctx.assumptions += ["a site is the k-th call of a user function since construction of the system (deterministic: verified by the site-not-reached clause)",
                         "resumed fixed-step explicit/splitting runs must be bit-identical to the fault-free run; others within 500*tol at the final time"]
@@ -391,6 +415,17 @@ def run(ctx):
                     if ctx.quick and kind == "KeyboardInterrupt" and k % 2 == 0 and n > 40:
                         continue
                     plans.append((site, k, kind))
+        # the exception-class alphabet: every site of the set-ups with dense output (quick: those without events and callbacks, plus every third site of those
+        # with them; thorough: all)
+        if cfg["dense"] and not cfg.get("against") and cfg.get("dtype") is None and abs(cfg["span"][0]) < 100:
+            for site, n in sorted(totals.items()):
+                for k in range(1, n + 1):
+                    if ctx.quick and cfg["evcb"] and (site != "rhs" or cfg.get("terminal")) and k % 3 != 1:
+                        continue
+                    for kind in EXTRA_KINDS:
+                        if ctx.quick and n > 60 and (k + EXTRA_KINDS.index(kind)) % 4 != 0:
+                            continue
+                        plans.append((site, k, kind))
         if not ctx.quick:
             # pairs: second fault in the resumed run, on a sub-lattice of positions
             for site, n in sorted(totals.items()):
